@@ -2,6 +2,7 @@ import BoboVerif.Props.C12
 import BoboVerif.Lemmas.Remote
 import BoboVerif.Lemmas.RunChange
 import BoboVerif.Lemmas.LocalStarts
+import BoboVerif.Lemmas.LocalExact
 /-!
 C03 — Replication is transparent and survivors take over (failover equivalence).
 
@@ -153,5 +154,284 @@ theorem replica_reports_completions (c : Cfg ε) (hc : c.caching = true) (hns : 
     · exact halted_valid
     · exact bot_valid
   rw [this]; exact join_completed_right (abs_valid _ _ _ _)
+
+/-- **replicas mirror the originator run by run, content included.**  If, before the originator processes an
+event, a replica holds under every key of a known pattern exactly the run the originator holds (same identifier,
+index, history CONTENT, pattern), then after it applies the originator's notification it again holds exactly the
+originator's run under every such key — for every pattern set without singletons whose names resolve uniquely,
+every event and every table; finished-run memory enabled and not evicting on the replica.  Identifier hygiene
+is explicit: the notification names no run the replica remembers as finished (`hmemB`), names no identifier both
+as finished and as updated (`hsep`), and the originator does not still hold a run it announces as finished
+(`hfin`) — all three follow from run identifiers being unique (C12).  The proof shows both sides compute the SAME
+fold: `local_exact` (the originator's table after the step is `applyRec` folded over the `updated` records naming
+the key) and `remote_exact` (so is the replica's). -/
+theorem replica_mirrors_runs (c : Cfg ε) (hc : c.caching = true) (hns : NoSing c) (hcw : CfgWF c)
+    (sA sA' sB : DState ε) (e : ε) (nt : Notif ε) (ch : Bool)
+    (hwf : TableWF sA.table)
+    (hlive : ∀ ph pa id r, (c.getPattern ph pa).isSome = true → sA.table.runAt ph pa id = some r → r.run.halted = false)
+    (hA : localStep c sA e = some (sA', nt, ch))
+    (hBC : sB.cacheC.length + nt.completed.length ≤ c.maxCache) (hBH : sB.cacheH.length + nt.halted.length ≤ c.maxCache)
+    (hmemB : ∀ x ∈ nt.completed ++ nt.halted ++ nt.updated, inCache sB.cacheC x.id = false ∧ inCache sB.cacheH x.id = false)
+    (hsep : ∀ u ∈ nt.updated, ∀ f ∈ nt.completed ++ nt.halted, u.id ≠ f.id)
+    (hfin : ∀ x ∈ nt.completed ++ nt.halted, sA'.table.runAt x.phen x.pat x.id = none)
+    (hagree : ∀ ph pa id, (c.getPattern ph pa).isSome = true → sB.table.runAt ph pa id = sA.table.runAt ph pa id) :
+    ∃ sB' nB, remoteStep c sB nt.completed nt.halted nt.updated = some (sB', nB) ∧
+      sB'.cacheC = sB.cacheC ++ nt.completed ∧ sB'.cacheH = sB.cacheH ++ nt.halted ∧
+      ∀ ph pa id, (c.getPattern ph pa).isSome = true → sB'.table.runAt ph pa id = sA'.table.runAt ph pa id := by
+  obtain ⟨sB', nB, hB, hC, hH, hT⟩ := remote_exact c hc hns sB nt.completed nt.halted nt.updated hBC hBH hmemB hsep
+  refine ⟨sB', nB, hB, hC, hH, ?_⟩
+  intro ph pa id hk
+  cases hp : c.getPattern ph pa with
+  | none => simp [hp] at hk
+  | some p =>
+    rw [hT ph pa id p hp]
+    by_cases hany : (nt.completed ++ nt.halted).any (keyMatch ph pa id) = true
+    · -- the key's run finished: the replica drops it, the originator no longer holds it
+      obtain ⟨x, hx, hxk⟩ := List.any_eq_true.mp hany
+      obtain ⟨k1, k2, k3⟩ := (keyMatch_iff ph pa id x).mp hxk
+      have hnone := hfin x hx
+      rw [← k1, ← k2, ← k3] at hnone
+      have hnil : nt.updated.filter (keyMatch ph pa id) = [] := by
+        rw [List.filter_eq_nil_iff]
+        intro u hu huk
+        have := (keyMatch_iff ph pa id u).mp huk
+        exact hsep u hu x hx (by rw [← this.2.2, ← k3])
+      simp only [hany, if_true, hnil, List.foldl_nil, hnone]
+    · have hany' : (nt.completed ++ nt.halted).any (keyMatch ph pa id) = false := by simpa using hany
+      rcases local_exact c hcw sA sA' e nt ch hwf hA ph pa id p hp (fun r => hlive ph pa id r hk) with h1 | h1
+      · rw [hany'] at h1; exact absurd h1 (by decide)
+      · simp only [hany', Bool.false_eq_true, if_false]
+        rw [h1, hagree ph pa id hk]
+
+/-- … and the finished-run memories stay equal (neither side evicting). -/
+theorem replica_mirrors_memory (c : Cfg ε) (hc : c.caching = true) (hns : NoSing c)
+    (sA sA' sB sB' : DState ε) (e : ε) (nt nB : Notif ε) (ch : Bool)
+    (hA : localStep c sA e = some (sA', nt, ch))
+    (hB : remoteStep c sB nt.completed nt.halted nt.updated = some (sB', nB))
+    (hAC : sA.cacheC.length + nt.completed.length ≤ c.maxCache) (hAH : sA.cacheH.length + nt.halted.length ≤ c.maxCache)
+    (hmemB : ∀ x ∈ nt.completed ++ nt.halted ++ nt.updated, inCache sB.cacheC x.id = false ∧ inCache sB.cacheH x.id = false)
+    (hsep : ∀ u ∈ nt.updated, ∀ f ∈ nt.completed ++ nt.halted, u.id ≠ f.id)
+    (hmC : sB.cacheC = sA.cacheC) (hmH : sB.cacheH = sA.cacheH) :
+    sB'.cacheC = sA'.cacheC ∧ sB'.cacheH = sA'.cacheH := by
+  obtain ⟨sB2, nB2, hB2, hC, hH, _⟩ := remote_exact c hc hns sB nt.completed nt.halted nt.updated
+    (by rw [hmC]; exact hAC) (by rw [hmH]; exact hAH) hmemB hsep
+  rw [hB] at hB2
+  simp only [Option.some.injEq, Prod.mk.injEq] at hB2
+  obtain ⟨e1, _⟩ := hB2
+  subst e1
+  unfold localStep at hA
+  generalize checkAgainstRuns e sA.table = car at hA
+  obtain ⟨t1, rhc, rhi, rupd⟩ := car
+  simp only at hA
+  cases hcp : checkAgainstPatterns c e t1 sA.nextId with
+  | none => simp [hcp] at hA
+  | some acc =>
+    simp only [hcp, Option.some.injEq, Prod.mk.injEq] at hA
+    obtain ⟨hs', hnt, _⟩ := hA
+    subst hnt
+    simp only at hAC hAH hC hH
+    rw [maybeCache_noevict c hc _ _ _ (by simpa using hAC) (by simpa using hAH)] at hs'
+    subst hs'
+    simp only [hC, hH, hmC, hmH]
+    exact ⟨trivial, trivial⟩
+
+/-! ### every split of every stream: the lockstep invariant -/
+
+/-- the same rules with another run-identifier source (each instance hands out its own identifiers). -/
+def withIds (c : Cfg ε) (f : Nat → String) : Cfg ε := { c with idOf := f }
+
+theorem remoteStep_ids (c : Cfg ε) (f g : Nat → String) :
+    remoteStep (withIds c f) = (remoteStep (withIds c g) : DState ε → _) := rfl
+
+/-- identifier hygiene of one originator step (all consequences of run identifiers being unique, C12) and
+no eviction from the finished-run memory during it. -/
+structure Hygiene (c : Cfg ε) (a a' : DState ε) (nt : Notif ε) : Prop where
+  evC : a.cacheC.length + nt.completed.length ≤ c.maxCache
+  evH : a.cacheH.length + nt.halted.length ≤ c.maxCache
+  mem : ∀ x ∈ nt.completed ++ nt.halted ++ nt.updated, inCache a.cacheC x.id = false ∧ inCache a.cacheH x.id = false
+  sep : ∀ u ∈ nt.updated, ∀ f ∈ nt.completed ++ nt.halted, u.id ≠ f.id
+  fin : ∀ x ∈ nt.completed ++ nt.halted, a'.table.runAt x.phen x.pat x.id = none
+
+/-- two instances holding the same runs (content included) under every key of a known pattern, and the same
+finished-run memories. -/
+structure Mirror (c : Cfg ε) (a b : DState ε) : Prop where
+  runs : ∀ ph pa id, (c.getPattern ph pa).isSome = true → b.table.runAt ph pa id = a.table.runAt ph pa id
+  memC : b.cacheC = a.cacheC
+  memH : b.cacheH = a.cacheH
+
+theorem Mirror.symm {c : Cfg ε} {a b : DState ε} (h : Mirror c a b) : Mirror c b a :=
+  ⟨fun ph pa id hk => (h.runs ph pa id hk).symm, h.memC.symm, h.memH.symm⟩
+
+/-- the states two instances can reach when an input stream is split between them in ANY way and each
+notification is applied by the other instance before the next input (`stepA`: the first instance runs
+`update()` on the event and the second applies the notification; `stepB`: the other way round). -/
+inductive Lock (c : Cfg ε) (fA fB : Nat → String) : DState ε → DState ε → Prop
+  | init : Lock c fA fB {} {}
+  | stepA {a b a' b' : DState ε} {e : ε} {nt nB : Notif ε} {ch : Bool} (h : Lock c fA fB a b)
+      (hA : localStep (withIds c fA) a e = some (a', nt, ch))
+      (hB : remoteStep (withIds c fB) b nt.completed nt.halted nt.updated = some (b', nB))
+      (hyg : Hygiene c a a' nt) : Lock c fA fB a' b'
+  | stepB {a b a' b' : DState ε} {e : ε} {nt nA : Notif ε} {ch : Bool} (h : Lock c fA fB a b)
+      (hB : localStep (withIds c fB) b e = some (b', nt, ch))
+      (hA : remoteStep (withIds c fA) a nt.completed nt.halted nt.updated = some (a', nA))
+      (hyg : Hygiene c b b' nt) : Lock c fA fB a' b'
+
+/-- what `Lock` maintains. -/
+structure LockInv (c : Cfg ε) (a b : DState ε) : Prop where
+  mirror : Mirror c a b
+  wfA : TableWF a.table
+  wfB : TableWF b.table
+  liveA : ∀ ph pa id r, (c.getPattern ph pa).isSome = true → a.table.runAt ph pa id = some r → r.run.halted = false
+
+theorem LockInv.liveB {c : Cfg ε} {a b : DState ε} (h : LockInv c a b) :
+    ∀ ph pa id r, (c.getPattern ph pa).isSome = true → b.table.runAt ph pa id = some r → r.run.halted = false := by
+  intro ph pa id r hk hr
+  rw [h.mirror.runs ph pa id hk] at hr
+  exact h.liveA ph pa id r hk hr
+
+theorem LockInv.symm {c : Cfg ε} {a b : DState ε} (h : LockInv c a b) : LockInv c b a :=
+  ⟨h.mirror.symm, h.wfB, h.wfA, h.liveB⟩
+
+/-- one lockstep step keeps the invariant (originator `a`, replica `b`). -/
+theorem lockInv_step (c : Cfg ε) (hc : c.caching = true) (hns : NoSing c) (hcw : CfgWF c) (f g : Nat → String)
+    (a b a' b' : DState ε) (e : ε) (nt nB : Notif ε) (ch : Bool) (h : LockInv c a b)
+    (hA : localStep (withIds c f) a e = some (a', nt, ch))
+    (hB : remoteStep (withIds c g) b nt.completed nt.halted nt.updated = some (b', nB))
+    (hyg : Hygiene c a a' nt) : LockInv c a' b' := by
+  have hc' : (withIds c f).caching = true := hc
+  have hns' : NoSing (withIds c f) := hns
+  have hcw' : CfgWF (withIds c f) := hcw
+  rw [remoteStep_ids c g f] at hB
+  have hmemB : ∀ x ∈ nt.completed ++ nt.halted ++ nt.updated,
+      inCache b.cacheC x.id = false ∧ inCache b.cacheH x.id = false := by
+    rw [h.mirror.memC, h.mirror.memH]; exact hyg.mem
+  obtain ⟨b2, nB2, hB2, _, _, hT⟩ := replica_mirrors_runs (withIds c f) hc' hns' hcw' a a' b e nt ch h.wfA h.liveA hA
+    (by rw [h.mirror.memC]; exact hyg.evC) (by rw [h.mirror.memH]; exact hyg.evH) hmemB hyg.sep hyg.fin h.mirror.runs
+  rw [hB] at hB2
+  simp only [Option.some.injEq, Prod.mk.injEq] at hB2
+  obtain ⟨e1, _⟩ := hB2
+  subst e1
+  obtain ⟨m1, m2⟩ := replica_mirrors_memory (withIds c f) hc' hns' a a' b b' e nt nB ch hA hB hyg.evC hyg.evH hmemB hyg.sep
+    h.mirror.memC h.mirror.memH
+  refine ⟨⟨hT, m1, m2⟩, (local_is_join (withIds c f) hc' a a' e nt ch h.wfA hA hyg.evC hyg.evH).1,
+    wf_remoteStep ahead true (withIds c f) b b' _ _ _ nB h.wfB hB, ?_⟩
+  intro ph pa id r hk hr
+  exact local_live (withIds c f) a a' e nt ch h.wfA hA ph pa id (fun r0 => h.liveA ph pa id r0 hk) r hr
+
+/-- **every split of every stream keeps the two instances identical.**  Whatever way an input stream is
+divided between two instances, with each notification applied by the other before the next input, both hold
+under every key of a known pattern exactly the same run — identifier, index, history content — and the same
+finished-run memories, after every input (non-singleton rules whose names resolve uniquely, finished-run
+memory enabled and not evicting, run identifiers unique: `Hygiene`).  Hence either instance can be lost at any
+point of the stream: the survivor already holds every partially completed run, content included, and
+`update()` is a function of the table and the event. -/
+theorem split_stream_mirror (c : Cfg ε) (hc : c.caching = true) (hns : NoSing c) (hcw : CfgWF c)
+    (fA fB : Nat → String) (a b : DState ε) (h : Lock c fA fB a b) : LockInv c a b := by
+  induction h with
+  | init =>
+    exact ⟨⟨fun _ _ _ _ => rfl, rfl, rfl⟩, wf_empty, wf_empty, fun ph pa id r _ hr => by
+      simp [Table.runAt, Table.runsFrom, lookup] at hr⟩
+  | stepA _ hA hB hyg ih => exact lockInv_step c hc hns hcw fA fB _ _ _ _ _ _ _ _ ih hA hB hyg
+  | stepB _ hB hA hyg ih => exact (lockInv_step c hc hns hcw fB fA _ _ _ _ _ _ _ _ ih.symm hB hA hyg).symm
+
+/-! non-vacuity of `replica_mirrors_runs`: a concrete two-pattern configuration and a step that halts one run and starts another -/
+section example_
+def exBlk (k : Nat) (g : String) : Block Nat :=
+  { preds := [fun e _ => some (e == k)], group := g, strict := false, loop := false, negated := false, optional := false }
+def exP1 : Pattern Nat :=
+  { name := "p1", singleton := false, pre := [], halt := [fun e _ => some (e == 7)], blocks := [exBlk 0 "a", exBlk 1 "b", exBlk 2 "c"] }
+def exP2 : Pattern Nat :=
+  { name := "p2", singleton := false, pre := [], halt := [], blocks := [exBlk 7 "a", exBlk 8 "b"] }
+def exCfg : Cfg Nat :=
+  { phenomena := [{ name := "ph", patterns := [exP1, exP2] }], maxCache := 10,
+    idOf := fun n => match n with | 0 => "r0" | _ => "r1" }
+def exRun : LRun Nat := { run := newRun "x" exP1 "a" 0, pat := exP1 }
+def exT : Table Nat := [("ph", [("p1", [exRun])])]
+def exS : DState Nat := { table := exT }
+
+theorem exT_add : Table.add ([] : Table Nat) "ph" "p1" exRun = some exT := by rfl
+theorem exWF : TableWF exT := wf_add [] exT wf_empty "ph" "p1" exRun rfl exT_add
+
+theorem noSing_of_all {ε} (c : Cfg ε) (h : ∀ P ∈ c.phenomena, ∀ p ∈ P.patterns, p.singleton = false) : NoSing c := by
+  intro ph pa p hg
+  unfold Cfg.getPattern at hg
+  cases hf : c.phenomena.find? (·.name == ph) with
+  | none => simp [hf] at hg
+  | some P =>
+    simp only [hf] at hg
+    exact h P (List.mem_of_find?_eq_some hf) p (List.mem_of_find?_eq_some hg)
+
+theorem exNoSing : NoSing exCfg := by
+  apply noSing_of_all
+  intro P hP p hp
+  simp only [exCfg, List.mem_singleton] at hP
+  subst hP
+  simp only [List.mem_cons, List.not_mem_nil, or_false] at hp
+  rcases hp with e | e <;> subst e <;> rfl
+
+theorem exCfgWF : CfgWF exCfg := by
+  intro P hP p hp
+  simp only [exCfg, List.mem_singleton] at hP
+  subst hP
+  simp only [List.mem_cons, List.not_mem_nil, or_false] at hp
+  rcases hp with e | e <;> subst e <;> rfl
+
+theorem exLive : ∀ ph pa id r, (exCfg.getPattern ph pa).isSome = true → exT.runAt ph pa id = some r → r.run.halted = false := by
+  intro ph pa id r _ h
+  rw [runAt_add [] exT "ph" "p1" exRun exT_add] at h
+  split at h
+  · simp only [Option.some.injEq] at h; subst h; rfl
+  · simp [Table.runAt, Table.runsFrom, lookup] at h
+
+/-- the hypotheses of `replica_mirrors_runs` are jointly satisfiable on a step that both halts a stored run
+and starts a new one: the originator holds run "x" of p1; event 7 halts it (p1's halt condition) and starts
+run "r0" of p2; a replica holding the same table reproduces the originator's table exactly. -/
+example : ∃ sA' nt ch sB' nB, localStep exCfg exS 7 = some (sA', nt, ch) ∧
+    nt.halted.map (·.id) = ["x"] ∧ nt.updated.map (·.id) = ["r0"] ∧
+    remoteStep exCfg exS nt.completed nt.halted nt.updated = some (sB', nB) ∧
+    ∀ ph pa id, (exCfg.getPattern ph pa).isSome = true → sB'.table.runAt ph pa id = sA'.table.runAt ph pa id := by
+  have hsome : (localStep exCfg exS 7).isSome = true := by decide
+  obtain ⟨⟨sA', nt, ch⟩, hA⟩ := Option.isSome_iff_exists.mp hsome
+  have hcomp : nt.completed = [] := by
+    have : ((localStep exCfg exS 7).map (fun r => r.2.1.completed.length)) = some 0 := by decide
+    rw [hA] at this; simpa using this
+  have hhalt : nt.halted.map (·.id) = ["x"] := by
+    have : ((localStep exCfg exS 7).map (fun r => r.2.1.halted.map (·.id))) = some ["x"] := by decide
+    rw [hA] at this; simpa using this
+  have hupd : nt.updated.map (·.id) = ["r0"] := by
+    have : ((localStep exCfg exS 7).map (fun r => r.2.1.updated.map (·.id))) = some ["r0"] := by decide
+    rw [hA] at this; simpa using this
+  have hfinx : sA'.table.runAt "ph" "p1" "x" = none := by
+    have : ((localStep exCfg exS 7).map (fun r => (r.1.table.runAt "ph" "p1" "x").isSome)) = some false := by decide
+    rw [hA] at this
+    simp only [Option.map_some, Option.some.injEq] at this
+    cases hx : sA'.table.runAt "ph" "p1" "x" with
+    | none => rfl
+    | some v => simp [hx] at this
+  have hkeys : nt.halted.map (fun x => (x.phen, x.pat, x.id)) = [("ph", "p1", "x")] := by
+    have : ((localStep exCfg exS 7).map (fun r => r.2.1.halted.map (fun x => (x.phen, x.pat, x.id)))) = some [("ph", "p1", "x")] := by decide
+    rw [hA] at this; simpa using this
+  obtain ⟨sB', nB, hB, _, _, hT⟩ := replica_mirrors_runs exCfg (by decide) exNoSing exCfgWF exS sA' exS 7 nt ch exWF exLive hA
+    (by rw [hcomp]; decide) (by have := congrArg List.length hhalt; simp at this; simp [exS, this]; decide)
+    (fun x _ => ⟨rfl, rfl⟩)
+    (by
+      intro u hu f hf
+      rw [hcomp, List.nil_append] at hf
+      have h1 : u.id ∈ nt.updated.map (·.id) := List.mem_map.mpr ⟨u, hu, rfl⟩
+      have h2 : f.id ∈ nt.halted.map (·.id) := List.mem_map.mpr ⟨f, hf, rfl⟩
+      rw [hupd] at h1; rw [hhalt] at h2
+      simp only [List.mem_singleton] at h1 h2
+      rw [h1, h2]; decide)
+    (by
+      intro x hx
+      rw [hcomp, List.nil_append] at hx
+      have h2 : (x.phen, x.pat, x.id) ∈ nt.halted.map (fun x => (x.phen, x.pat, x.id)) := List.mem_map.mpr ⟨x, hx, rfl⟩
+      rw [hkeys] at h2
+      simp only [List.mem_singleton, Prod.mk.injEq] at h2
+      obtain ⟨e1, e2, e3⟩ := h2
+      rw [e1, e2, e3]; exact hfinx)
+    (fun _ _ _ _ => rfl)
+  exact ⟨sA', nt, ch, sB', nB, hA, hhalt, hupd, hB, hT⟩
+end example_
 
 end Bobo.Decider
